@@ -246,6 +246,12 @@ func not3(t tri) tri {
 // "false", an integer constant, or the rendered text.
 func AbstractResult(v ssa.Value) string {
 	switch x := v.(type) {
+	case *CtxValue:
+		// a result of a transparent helper: its class is the class of the helper's value
+		if a := AbstractResult(x.Value); a == "nil" || strings.HasPrefix(a, "nonnil:") {
+			return a
+		}
+		return Render(v)
 	case *ssa.Const:
 		return renderConst(x)
 	case *ssa.MakeInterface:
